@@ -84,7 +84,7 @@ def check(run):
     # ROW clauses of the imputers
     for cls in imputer_classes(prog):
         if cls.name == "MarginalImputer":
-            fr = c06.FilterRun(run, {"VALUE"}, {"VALUE": "ROW"})
+            fr = c06.FilterRun(run, {"VALUE", "MERGE"}, {"VALUE": "ROW", "MERGE": "ROW"})
             c06._imputer(fr, prog, cls)
         if cls.name == "TreeImputer":
             _tree_rows(run, prog, cls)
